@@ -135,6 +135,8 @@ func zzvC01FileSets() []zzvC01FileSet {
 		{"example.com/p1", "v2.0.0", "go1.22.0", "linux", "amd64"},
 		{"example.com/p1x", "v1.0.0", "go1.21.0", "linux", "amd64"},
 		{"p1", "v1.0.0", "go1.21.0", "linux", "amd64"},
+		{"example.com/p1", "v1.0.0", "go1.21.0", "linux", "arm64"},
+		{"example.com/p1", "v1.0.0", "go1.21.0", "darwin", "amd64"},
 	}
 	var many []ref.LocalFile
 	for i, b := range variants {
@@ -144,7 +146,7 @@ func zzvC01FileSets() []zzvC01FileSet {
 	return []zzvC01FileSet{
 		{"one-file-all-names", []ref.LocalFile{{ok, all}}},
 		{"two-files-same-build", []ref.LocalFile{{ok, half1}, {ok, half2}}},
-		{"nine-builds", many},
+		{"eleven-builds", many},
 		{"big-values", []ref.LocalFile{{ok, big}, {ok, map[string]uint64{"c": 1 << 31}}}},
 		{"huge-values", []ref.LocalFile{{ok, map[string]uint64{"c": 1 << 63, "c:a": ^uint64(0), "d:a": 1 << 62, "s\nF": 1<<63 + 5}}, {ok, map[string]uint64{"d:a": 1 << 62, "c:b": 7}}}},
 	}
@@ -311,6 +313,8 @@ func zzvAllApproving(files []ref.LocalFile) *telemetry.UploadConfig {
 	progs := map[string]*telemetry.ProgramConfig{}
 	for _, f := range files {
 		cfg.GoVersion = append(cfg.GoVersion, f.Build.GoVersion)
+		cfg.GOOS = append(cfg.GOOS, f.Build.GOOS)
+		cfg.GOARCH = append(cfg.GOARCH, f.Build.GOARCH)
 		p := progs[f.Build.Program]
 		if p == nil {
 			p = &telemetry.ProgramConfig{Name: f.Build.Program}
